@@ -346,6 +346,8 @@ impl McObservation {
         acc.sim_steps += self.tstats.events;
         acc.log_hash = acc.log_hash.rotate_left(9) ^ self.log_hash;
         acc.count("transport.events", self.tstats.events);
+        acc.max("transport.events_in_one_run", self.tstats.events);
+        acc.max("transport.commands_in_one_run", self.tstats.commands);
         acc.count("transport.spawns", self.tstats.spawns);
         acc.count("transport.commands", self.tstats.commands);
         acc.count("transport.response_points", self.tstats.response_points);
